@@ -28,13 +28,40 @@ def target_words(host):
     return kind, hx(packed)
 
 
+class _FakeProxyEndpoint:
+    """stands for Tor's SOCKS port: hands the factory it is given to the harness (which then plays the transport)"""
+
+    def __init__(self, impl):
+        self.impl = impl
+
+    def connect(self, factory):
+        from twisted.internet import defer
+        self.impl.sf = factory
+        self.impl.proto = factory.buildProtocol(None)
+        self.impl.pending_proxy = defer.Deferred()
+        return self.impl.pending_proxy
+
+
+try:
+    from zope.interface import implementer as _impl
+    from twisted.internet.interfaces import IStreamClientEndpoint as _ISCE
+    _FakeProxyEndpoint = _impl(_ISCE)(_FakeProxyEndpoint)
+except Exception:
+    pass
+
+
 class Impl:
-    def __init__(self, req, host, port):
+    def __init__(self, req, host, port, entry='factory'):
+        """entry: 'factory' (the SOCKS protocol factory itself), 'socks-endpoint' (TorSocksEndpoint.connect), 'client-endpoint'
+        (TorClientEndpoint.connect with a SOCKS endpoint given), 'function' (txtorcon.socks.resolve / resolve_ptr)"""
         from twisted.internet.protocol import Protocol, Factory
         from twisted.test import proto_helpers
         from txtorcon.socks import _TorSocksFactory
         self.log = []
         log = self.log
+        self.entry = entry
+        self.outer = None
+        self.pending_proxy = None
 
         class App(Protocol):
             def makeConnection(self, transport):
@@ -53,8 +80,27 @@ class Impl:
                 log.append('applost')
         self.App = App
         fac = Factory.forProtocol(App) if req == 'CONNECT' else None
-        self.sf = _TorSocksFactory(host, port, req, fac)
-        self.proto = self.sf.buildProtocol(None)
+        if entry == 'factory':
+            self.sf = _TorSocksFactory(host, port, req, fac)
+            self.proto = self.sf.buildProtocol(None)
+        else:
+            from twisted.internet.testing import MemoryReactorClock
+            fake = _FakeProxyEndpoint(self)
+            self.proto = None
+            if entry == 'socks-endpoint':
+                from txtorcon.socks import TorSocksEndpoint
+                self.outer = TorSocksEndpoint(fake, host, port).connect(fac)
+            elif entry == 'client-endpoint':
+                from txtorcon.endpoints import TorClientEndpoint
+                self.outer = TorClientEndpoint(host, port, socks_endpoint=fake, reactor=MemoryReactorClock()).connect(fac)
+            elif entry == 'function':
+                from txtorcon import socks
+                self.outer = (socks.resolve if req == 'RESOLVE' else socks.resolve_ptr)(fake, host)
+            else:
+                raise ValueError(entry)
+            self.outer.addErrback(lambda f: log.append('outer-fail ' + f.type.__name__) and None)
+            if self.proto is None:
+                raise RuntimeError('refused before connecting')
         self.tr = proto_helpers.StringTransport()
         ow, ol = self.tr.write, self.tr.loseConnection
 
@@ -135,6 +181,8 @@ class Impl:
             if op[0] == 'connect':
                 self.proto.makeConnection(self.tr)
                 self.watch()
+                if self.pending_proxy is not None:
+                    self.pending_proxy.callback(self.proto)
             elif op[0] == 'refeed' and self.consumed is op:
                 self.consumed = None          # delivered from inside the application's dataReceived
             elif op[0] in ('feed', 'refeed'):
